@@ -141,7 +141,7 @@ def run(ctx, res):
                                    % (k, str(second)[:200], str(fresh_b)[:200]), 'replay': {'case': tb}})
     # a .csv file with another delimiter (semicolon) goes through the delimiter-sniffing fallback of _read_csv: tame cells
     # (no separators, quotes or blanks: the sniffer is a heuristic) whose lexical form a typed read would not keep
-    TAME = ['a', 'b7', '007', '1.50', '20.00', '1e3', '-0', '3.14159265358979323846', 'true', 'None', 'x_y', '10', '2020-01-01']
+    TAME = ['a', 'b7', '007', '1.50', '20.00', '1e3', '-0', '3.14159265358979323846', 'true', 'None', 'x_y', '10', '2020-01-01', 'a"b', 'say "hi"', '"q"']
     tame = []
     for _ in range(ctx.scale(10, 150)):
         t = gen_table_case(ctx.rng)
